@@ -171,7 +171,7 @@ Proof.
   - destruct H3 as [[H3 H4]|[_ [H3 H4]]]; [right|left]; auto.
 Qed.
 
-Lemma parse_complete : forall d n, parse (CW d n n) = PJObj d.
+Lemma parse_complete : forall d n, parse (CW d n n) = PJObj (jtext d).
 Proof. intros. simpl. replace (Nat.leb (n - 1) n) with true; auto. symmetry. apply Nat.leb_le. lia. Qed.
 
 (* the stored file changes only to a complete new document *)
@@ -189,16 +189,21 @@ Proof.
   - right; eauto.
 Qed.
 
+(* reading the file c gives the document p, or what the JSON text of p reads back as (p itself unless a string of p
+   holds a high surrogate directly followed by a low one, see jtext in Model.v): p is what json.load returned, or p
+   is what json.dump wrote *)
+Definition reads_as (c : content) (p : amap) : Prop := parse c = PJObj p \/ parse c = PJObj (jtext p).
+
 (* persistentData describes the stored file (or is the empty dict of a module that has nothing stored) *)
 Definition in_sync (d : disk) (m : mstate) : Prop :=
   match pdata m with
   | None => True
-  | Some p => p = [] \/ exists c, target d = Some c /\ parse c = PJObj p
+  | Some p => p = [] \/ exists c, target d = Some c /\ reads_as c p
   end.
 
 (* the stored file is a complete document equal (python ==) to data *)
 Definition holds (d : disk) (data : amap) : Prop :=
-  exists c p, target d = Some c /\ parse c = PJObj p /\ (p = data \/ snap_eqb data p = true).
+  exists c p, target d = Some c /\ reads_as c p /\ (p = data \/ snap_eqb data p = true).
 
 Lemma in_sync_target : forall d d' m, target d' = target d -> in_sync d m -> in_sync d' m.
 Proof. intros d d' m H. unfold in_sync. now rewrite H. Qed.
@@ -216,9 +221,9 @@ Proof.
       * destruct (save_file_target f data n d) as [H|H]; [left; exact H|right; eauto].
       * intros Hs. destruct (sres_of (save_file f data n d)) eqn:R; simpl; auto.
         -- right. destruct (save_file_done f data n d) as [[H1 H2]|[H1 [H2 H3]]]; try congruence.
-           rewrite H1. unfold in_sync. simpl. right. rewrite H2. eexists; split; [reflexivity|apply parse_complete].
+           rewrite H1. unfold in_sync. simpl. right. rewrite H2. eexists; split; [reflexivity|right; apply parse_complete].
         -- right. destruct (save_file_done f data n d) as [[H1 H2]|[H1 [H2 H3]]]; try congruence.
-           ++ rewrite H1. unfold in_sync. simpl. right. rewrite H2. eexists; split; [reflexivity|apply parse_complete].
+           ++ rewrite H1. unfold in_sync. simpl. right. rewrite H2. eexists; split; [reflexivity|right; apply parse_complete].
            ++ rewrite H1. eapply in_sync_target; eauto.
     + split; [apply tstep_refl|]. intros H. right. exact H.
   - split; [apply tstep_refl|]. intros H. right. exact H.
@@ -299,10 +304,10 @@ Definition op_n (o : op) : nat :=
 Definition is_corrupt (o : op) : bool := match o with OCorrupt _ => true | _ => false end.
 
 Lemma load_file_sync : forall M d raw loaded, load_file M d = LOk raw loaded ->
-  raw = [] \/ exists c, target d = Some c /\ parse c = PJObj raw.
+  raw = [] \/ exists c, target d = Some c /\ reads_as c raw.
 Proof.
   intros M d raw loaded. unfold load_file. destruct (target d) as [c|].
-  - destruct (parse c) eqn:P; intros H; inversion H; subst; auto. right. eauto.
+  - destruct (parse c) eqn:P; intros H; inversion H; subst; auto. right. exists c. split; [reflexivity|left; exact P].
   - intros H; inversion H; auto.
 Qed.
 
@@ -437,8 +442,9 @@ Proof.
   intros M n d m data Hw Hd Hs. unfold save_parameters, save_params. rewrite Hw, Hd.
   destruct (differs data (pdata m)) eqn:D.
   - destruct (save_file_nofault data n d) as [H1 [H2 H3]]. rewrite H1, H2, H3. repeat split; auto.
-    + right. exists (CW data n n), data. simpl target. repeat split; auto. apply parse_complete.
-    + unfold in_sync. simpl. right. eexists; split; [reflexivity|apply parse_complete].
+    + right. exists (CW data n n), data. simpl target.
+      split; [reflexivity|split; [right; apply parse_complete|left; reflexivity]].
+    + unfold in_sync. simpl. right. eexists; split; [reflexivity|right; apply parse_complete].
   - repeat split; auto. unfold differs in D. unfold in_sync in Hs. destruct (pdata m) as [p|]; [|discriminate].
     apply negb_false_iff in D. destruct Hs as [Hs|[c [Hc Hp]]].
     + subst p. left. now apply snap_eqb_nil.
@@ -729,15 +735,15 @@ Definition codec_ok (M : mdesc) (vs : amap) : Prop :=
   forall i p v j, nth_error M i = Some p -> aget i vs = Some v -> export (p_dt p) v = Some j -> usable_dt (p_dt p) j = Some v.
 
 Lemma roundtrip_module : forall M vs data n cfg i p v,
-  codec_ok M vs -> snapshot_of M vs = Some data ->
+  codec_ok M vs -> snapshot_of M vs = Some data -> jtext data = data ->
   nth_error M i = Some p -> persistent p = true -> aget i vs = Some v -> aget i cfg = None ->
   exists raw loaded, load_file M {| target := Some (CW data n n); tmp := None |} = LOk raw loaded /\
     aget i (vals (init_state M cfg raw loaded)) = Some v.
 Proof.
-  intros M vs data n cfg i p v Hc Hs Hn Hp Hv Hcfg.
+  intros M vs data n cfg i p v Hc Hs Hj Hn Hp Hv Hcfg.
   destruct (snapshot_entries M vs data Hs) as [Hd He]. destruct (He i p v Hn Hp Hv) as [j [Hx Hin]].
   exists data, (fold_left (load_entry M) data []). split.
-  - unfold load_file. cbn [target]. now rewrite parse_complete.
+  - unfold load_file. cbn [target]. now rewrite parse_complete, Hj.
   - rewrite (init_precedence M cfg data _ i p Hn), Hcfg, Hp.
     rewrite (load_restores M data [] i j v Hd Hin); auto.
     unfold usable. rewrite Hn, Hp. eapply Hc; eauto.
@@ -756,4 +762,24 @@ Proof.
   - destruct (existsb (Z.eqb z) (map snd ms)) eqn:E; [|discriminate]. inversion H; subst. simpl. repeat (rewrite E; simpl). reflexivity.
   - inversion H; subst. destruct (str_ok minc maxc utf8 s) eqn:E; [|discriminate]. simpl. repeat (rewrite E; simpl). reflexivity.
   - inversion H; subst. reflexivity.
+Qed.
+
+(* ------------------------------------------------------------------ the text of strings *)
+(* no high surrogate is directly followed by a low surrogate *)
+Fixpoint no_adjacent_pair (s : str) : bool :=
+  match s with
+  | [] => true
+  | h :: t => match t with
+              | l :: _ => negb (is_high h && is_low l) && no_adjacent_pair t
+              | [] => true
+              end
+  end.
+
+Lemma jtext_str_id : forall s, no_adjacent_pair s = true -> jtext_str s = s.
+Proof.
+  induction s as [|h t IH]; [reflexivity|]. destruct t as [|l r]; [reflexivity|].
+  intros H. change (negb (is_high h && is_low l) && no_adjacent_pair (l :: r) = true) in H.
+  apply andb_true_iff in H. destruct H as [H1 H2]. apply negb_true_iff in H1.
+  change (jtext_str (h :: l :: r)) with (if is_high h && is_low l then join_pair h l :: jtext_str r else h :: jtext_str (l :: r)).
+  rewrite H1. now rewrite (IH H2).
 Qed.
